@@ -46,6 +46,8 @@ def _decode_escape_sequence(  # noqa: PLR0911
         return "\r", index
     if ch == "t":
         return "\t", index
+    if ch == "0":
+        return "\0", index
     if ch == "x":
         # TODO: handle incomplete \x escape sequence
         return chr(int(value[index + 1 : index + 3], 16)), index + 2
